@@ -33,7 +33,7 @@ TIERS = {
                                    dict(fam="conc", iters=3000, g=16, procs=2, race=True, shards=16),
                                    dict(fam="own", iters=3000, g=8, procs=16, shards=16),
                                    dict(fam="own", iters=1000, g=64, procs=2, shards=16)],
-                             mc=[("MCLazyPool", "MCLazyPool_conc2.cfg"), ("MCLazyPool", "MCLazyPool_conc3.cfg")])},
+                             mc=[("MCLazyPool", "MCLazyPool_conc2.cfg"), ("MCLazyPool", "MCLazyPool_conc3.cfg"), ("MCLazyPool", "MCLazyPool_conc3big.cfg")])},
 }
 
 RULES = {
